@@ -86,3 +86,49 @@ void h_pts(void) {
     V_CANARY("comparator returns");
 }
 #endif
+
+#ifdef U02_SHOWEX
+/* C02 — staging of the show-existing frame header of a picture that re-shows a stored frame (block slice of
+ * packetization_kernel).  The queue entry's private bitstream is REUSED every 2048 pictures, so the staged bytes are
+ * those of THIS picture only if the buffer is reset before anything is written to it: otherwise the packet would
+ * carry a stale header and the temporal unit two displayed frames.  Ordered call log of the real block:
+ *   [grow if the next entry carries metadata] -> reset(entry bitstream) -> metadata OBU -> frame header with
+ *   show_existing = 1 -> metadata of the next entry released. */
+#define EV_REALLOC 1
+#define EV_RESET 2
+#define EV_META 3
+#define EV_FH 4
+#define EV_FREE 5
+int g_ev[8]; unsigned g_nev; Bitstream *g_bs; int g_ok = 1; uint8_t g_fh_show_existing;
+static void ev(int e) { if (g_nev < 8) g_ev[g_nev] = e; g_nev++; }
+EbErrorType stub_realloc_bs(Bitstream *b, uint32_t sz) { (void)sz; if (b != g_bs) g_ok = 0; ev(EV_REALLOC); return EB_ErrorNone; }
+void stub_bs_reset(Bitstream *b) { if (b != g_bs) g_ok = 0; ev(EV_RESET); }
+EbErrorType stub_write_metadata(Bitstream *b, SvtMetadataArrayT *m, const EbAv1MetadataType t) { (void)m; (void)t; if (b != g_bs) g_ok = 0; ev(EV_META); return EB_ErrorNone; }
+EbErrorType stub_write_fh(Bitstream *b, SequenceControlSet *s, PictureControlSet *p, uint8_t show_existing) { (void)s; (void)p; if (b != g_bs) g_ok = 0; g_fh_show_existing = show_existing; ev(EV_FH); return EB_ErrorNone; }
+void stub_md_free(void *arr) { (void)arr; ev(EV_FREE); }
+size_t stub_md_size(SvtMetadataArrayT *m, const EbAv1MetadataType t) { (void)m; (void)t; size_t n; __CPROVER_assume(n < 4096); return n; }
+void h_showex(void) {
+    PictureControlSet *pcs = malloc(sizeof(*pcs)); PictureParentControlSet *pp = malloc(sizeof(*pp));
+    SequenceControlSet *scs = malloc(sizeof(*scs)); EncodeContext *ec = malloc(sizeof(*ec));
+    PacketizationReorderEntry *qe = malloc(sizeof(*qe)), *next = malloc(sizeof(*next));
+    PacketizationReorderEntry **queue = malloc(sizeof(*queue) * PACKETIZATION_REORDER_QUEUE_MAX_DEPTH);
+    Bitstream *bs = malloc(sizeof(*bs));
+    __CPROVER_assume(pcs && pp && scs && ec && qe && next && queue && bs);
+    pcs->parent_pcs_ptr = pp; ec->packetization_reorder_queue = queue; qe->bitstream_ptr = bs; g_bs = bs;
+    /* picture numbers whose successor falls at the start / middle / last slot of the 2048-entry queue */
+    { unsigned sel; pcs->picture_number = sel == 0 ? 0 : sel == 1 ? 2046 : sel == 2 ? 2047 : sel == 3 ? 4095 : 1000000; }
+    queue[(pcs->picture_number + 1) % PACKETIZATION_REORDER_QUEUE_MAX_DEPTH] = next;
+    { _Bool has_md; SvtMetadataArrayT *md = malloc(sizeof(*md)); __CPROVER_assume(md); next->metadata = has_md ? md : NULL; }
+    int had_md = next->metadata != NULL;
+    EbBool show_ex = pp->has_show_existing;
+    verif_c02_showex(pcs, scs, ec, qe);
+    if (!show_ex) { V_ASSERT(g_nev == 0, "no staging for a picture that does not re-show a stored frame"); V_CANARY("not a show-existing picture"); return; }
+    V_ASSERT(g_ok, "every staging call targets the queue entry's own bitstream");
+    unsigned k = 0;
+    if (had_md) { V_ASSERT(g_ev[0] == EV_REALLOC, "metadata present: the buffer is grown first"); k = 1; }
+    V_ASSERT(g_nev == k + 4 && g_ev[k] == EV_RESET && g_ev[k + 1] == EV_META && g_ev[k + 2] == EV_FH && g_ev[k + 3] == EV_FREE,
+             "the entry's bitstream is reset exactly once BEFORE the metadata OBU and the show-existing frame header are written, whether or not metadata is present");
+    V_ASSERT(g_fh_show_existing == 1, "the staged header is a show_existing_frame header");
+    V_CANARY("show-existing picture staged");
+}
+#endif
